@@ -25,6 +25,9 @@ use scylla::statement::Consistency;
 use std::sync::{Arc, Mutex};
 use vh::*;
 
+#[path = "../e2e_attempts.rs"]
+mod e2e;
+
 const CLS: [(&str, Consistency); 11] = [
     ("Any", Consistency::Any),
     ("One", Consistency::One),
@@ -494,9 +497,26 @@ fn main() {
     let env = loop_env();
     if let Some(p) = &a.replay {
         for c in read_cases(p) {
+            if e2e::is_e2e_case(&c) {
+                e2e::replay_case(&c, &mut out);
+                continue;
+            }
             let o = run_any(&env, &c);
             out.case(&c, &o);
         }
+        out.finish();
+        return;
+    }
+    // E6: end-to-end scenarios (real Session against the mock cluster), see e2e_attempts.rs
+    let e2e_n: u64 = std::env::var("E2E_N").ok().and_then(|s| s.parse().ok()).unwrap_or(if a.tier != "thorough" {
+        260
+    } else if a.n >= 6_000_000 {
+        2500
+    } else {
+        600 // the orchestrator's search rounds
+    });
+    e2e::run(e2e::Mix::C06, a.seed, e2e_n, &a.tier, &mut out);
+    if std::env::var("E2E_ONLY").is_ok() {
         out.finish();
         return;
     }
